@@ -23,12 +23,12 @@ EVAL_FUNCS = 'eval_expr, eval_or_expr, eval_and_expr, eval_eq_expr, eval_relatio
 PROPS = {
     'C05': dict(
         standin_ops=['xpath.query.node_test'],
-        verus_units=['eval_ctx'],
+        verus_units=['eval_ctx', 'func_lib'],
         level='proof',
         trusted_base=TRUSTED_VERUS,
         assumptions=[A2, A9, A10 + '; node_type() / node_name() of a node are uninterpreted functions of the node (namespace nodes answer Attribute in this library)', A11, A8],
         not_decided='everything else C05 asks: which nodes an axis yields, name tests against expanded names (live graph), predicates (by running the real code: /r/*[1.5] selects the first child because a numeric predicate is truncated, not compared -- NOT decided by any check: the value of the predicate expression is internal to eval_predicate), operators on node-sets, string-values; `self::*` on an attribute node (principal node type depends on the axis, which eval_node_test is not given)',
-        explanation='node tests of the evaluator: eval_node_test answers `*` with "the node is an element or an attribute (or namespace) node", text() with text / CDATA / entity-reference nodes, comment() and processing-instruction() by node type, node() always, and processing-instruction(\'t\') by node type and target, for every node',
+        explanation='node tests of the evaluator: eval_node_test answers `*` with "the node is an element or an attribute (or namespace) node", text() with text / CDATA / entity-reference nodes, comment() and processing-instruction() by node type, node() always, and processing-instruction(\'t\') by node type and target, for every node; the core functions count, string, concat, starts-with, contains, substring-before, substring-after, boolean, not, true, false, number, floor, ceiling, round return what XPath 1.0 section 4 prescribes in terms of the string / number / boolean value of their arguments (the conversions themselves are uninterpreted here; scalars: C09)',
     ),
     'C03': dict(
         standin_ops=['info.attr_value', 'info.build_print'],
@@ -100,12 +100,12 @@ PROPS = {
     ),
     'C06': dict(
         standin_ops=['xpath.query.no_panic'],
-        verus_units=['eval_ctx', 'func_strings'],
+        verus_units=['eval_ctx', 'func_strings', 'func_lib'],
         level='proof',
         trusted_base=TRUSTED_VERUS,
-        assumptions=[A2, A9, A10, A11, A8],
-        not_decided='the nom expression grammar (parse totality, backtracking cost), the axes and comparison helpers over live nodes, the function library bodies (func.rs: id(), substring), running time',
-        explanation='panic-freedom of the evaluator skeleton: in the 19 extracted eval_* functions every Option::unwrap, every unimplemented!/unreachable!, every arithmetic operation is a proof obligation (unwrap needs `is Some`, unimplemented! is a call of a function with `requires false`); nothing is assumed about parent_node() or the axes',
+        assumptions=[A2, A9, A10, A11, A8, 'the conversions String/f64/bool::try_from(&Value), as_expanded_name and the DOM accessors used by lang() are assumed callees (assumed not to panic); std string methods (starts_with, contains, split_once, split_whitespace/join, push_str) by their documented meaning; lang() walks the ancestors: its termination is not verified (A11)'],
+        not_decided='the nom expression grammar (parse totality, backtracking cost), the axes and comparison helpers over live nodes, the value conversions of model.rs, running time',
+        explanation='panic-freedom of the evaluator skeleton and of the whole core function library: in the 19 extracted eval_* functions and the 27 functions of func.rs every Option::unwrap, every unimplemented!/unreachable!, every arithmetic operation is a proof obligation (unwrap needs `is Some`, unimplemented! is a call of a function with `requires false`); nothing is assumed about parent_node() or the axes; each library function is verified under the argument count its own entry of func::table() lets through (read from the table on every run), and eval_func_expr is verified to call Entry::exec only with an argument count inside the entry\'s range',
     ),
 
     'C18': dict(
@@ -227,8 +227,8 @@ MANIFEST_TEXT = {
         technique='contract-based deductive verification (Verus postconditions over an abstract order key, lemmas by induction, loop invariants)',
         design_ref='DESIGN.md §9'),
     'C06': dict(
-        level_text='Proof (Verus) that the 19 eval_* functions of the evaluator cannot panic: every unwrap, unimplemented!/unreachable! site and arithmetic operation in them is a discharged obligation, with nothing assumed about parent_node() or the axes. Evaluator-skeleton clause of C06 only.',
-        level_note='Trusted as C19. Not decided: the expression grammar, helper functions over live nodes, the function library bodies, running time.',
+        level_text='Proof (Verus) that the 19 eval_* functions of the evaluator and the 27 functions of the core function library (func.rs) cannot panic: every unwrap, unimplemented!/unreachable! site and arithmetic operation in them is a discharged obligation, with nothing assumed about parent_node() or the axes; the argument count each library function may rely on is read from func::table() on every run and eval_func_expr is proved to respect it. The expression grammar, the axes and running time are not decided.',
+        level_note='Trusted as C19, plus the value conversions and DOM accessors as assumed callees and std string methods by their documented meaning. Not decided: the expression grammar, helper functions over live nodes, running time.',
         technique='contract-based deductive verification (Verus safety obligations: callee preconditions of Option::unwrap, `requires false` at panic sites, overflow)',
         design_ref='DESIGN.md §9'),
     'C18': dict(
